@@ -662,6 +662,7 @@ impl<'a> Sim<'a> {
             self.all_eager = false;
         }
         alator::verif::set_positions_seed(Some(rec.perm));
+        self.ctx.bump("f9_positions_permutations_installed");
         let r = catch(|| self.exec_inner(rec));
         alator::verif::set_positions_seed(None);
         if let Err(p) = r {
